@@ -7,6 +7,7 @@ import (
 	"go/types"
 	"reflect"
 	"sort"
+	"strconv"
 	"strings"
 
 	"verif/checker/eng"
@@ -444,4 +445,122 @@ func c19EnumLoops(c *cx, id string, in func(f *eng.Fn) bool) {
 		})
 	}
 	c.r.Note("%s: %d loops bounded by a declared enum constant examined", id, n)
+}
+
+// tagNamespaceAgreement (C13.4 / C19.3b): encoding/xml matches a struct tag
+// without a namespace against an element of that local name in ANY namespace.
+// Where the type's own encoder writes a child element under an explicit
+// namespace, the decoder's tag for that local name must name the same
+// namespace: otherwise a foreign element that merely shares the local name
+// (an application payload called <text/>) is decoded as the child.
+func tagNamespaceAgreement(c *cx, id string, in func(f *eng.Fn) bool) int {
+	type methods map[string]*eng.Fn
+	byType := map[*types.TypeName]methods{}
+	for _, f := range c.allFns() {
+		if !in(f) || f.Obj == nil || f.Decl == nil || f.Decl.Recv == nil {
+			continue
+		}
+		if tn := recvTypeName(f); tn != nil {
+			if byType[tn] == nil {
+				byType[tn] = methods{}
+			}
+			byType[tn][f.Obj.Name()] = f
+		}
+	}
+	n := 0
+	for tn, ms := range byType {
+		dec := ms["UnmarshalXML"]
+		var enc *eng.Fn
+		for _, nm := range []string{"TokenReader", "WriteXML", "MarshalXML"} {
+			if ms[nm] != nil {
+				enc = ms[nm]
+				break
+			}
+		}
+		if dec == nil || enc == nil {
+			continue
+		}
+		// element names the encoder writes with an explicit namespace
+		names := map[string]map[string]bool{} // local -> spaces
+		seen := map[*eng.Fn]bool{}
+		var collect func(f *eng.Fn, depth int)
+		collect = func(f *eng.Fn, depth int) {
+			if f == nil || seen[f] || depth > 2 || f.Body == nil {
+				return
+			}
+			seen[f] = true
+			ast.Inspect(f.Body, func(x ast.Node) bool {
+				switch v := x.(type) {
+				case *ast.CompositeLit:
+					if eng.TypeStr(f.Info().TypeOf(v)) == "encoding/xml.Name" {
+						sp, lo := structLitField(v, "Space"), structLitField(v, "Local")
+						if sp != nil && lo != nil {
+							cs, cl := f.ConstVal(sp), f.ConstVal(lo)
+							if cs != nil && cl != nil && constant.StringVal(cs) != "" {
+								l := constant.StringVal(cl)
+								if names[l] == nil {
+									names[l] = map[string]bool{}
+								}
+								names[l][constant.StringVal(cs)] = true
+							}
+						}
+					}
+				case *ast.CallExpr:
+					if fo := f.Prog.FnOf(calleeFunc(f, v)); fo != nil && fo.Pkg == f.Pkg {
+						collect(fo, depth+1)
+					}
+				}
+				return true
+			})
+		}
+		collect(enc, 0)
+		if len(names) == 0 {
+			continue
+		}
+		// struct tags of the decode structs declared in UnmarshalXML
+		ast.Inspect(dec.Body, func(x ast.Node) bool {
+			st, ok := x.(*ast.StructType)
+			if !ok || st.Fields == nil {
+				return true
+			}
+			for _, fld := range st.Fields.List {
+				if fld.Tag == nil || len(fld.Names) == 0 || fld.Names[0].Name == "XMLName" {
+					continue
+				}
+				raw, uerr := strconv.Unquote(fld.Tag.Value)
+				if uerr != nil {
+					continue
+				}
+				tag := reflect.StructTag(raw).Get("xml")
+				name := tag
+				if i := strings.Index(tag, ","); i >= 0 {
+					if strings.Contains(tag[i:], "attr") || strings.Contains(tag[i:], "chardata") || strings.Contains(tag[i:], "any") || strings.Contains(tag[i:], "innerxml") {
+						continue
+					}
+					name = tag[:i]
+				}
+				if name == "" || strings.Contains(name, ">") {
+					continue
+				}
+				space, local := "", name
+				if i := strings.LastIndex(name, " "); i >= 0 {
+					space, local = name[:i], name[i+1:]
+				}
+				spaces, known := names[local]
+				if !known {
+					continue
+				}
+				n++
+				ok2 := spaces[space]
+				var want []string
+				for s := range spaces {
+					want = append(want, s)
+				}
+				sort.Strings(want)
+				c.r.CheckNamed(id, dec.Short, "child <"+local+"> of "+tn.Name(), "T: a child element the encoder writes under an explicit namespace is decoded under that namespace (a tag without one matches the local name in ANY namespace)", fld.Pos(), ok2, "the encoder writes <"+local+"> in "+strings.Join(want, " or ")+", the decoder's tag is `"+tag+"`")
+			}
+			return true
+		})
+	}
+	return n
 }
